@@ -220,6 +220,21 @@ APPEND = {
     ("C03_run_atomicity2", "run_atomicity2", "RMW atomicity in every reachable state under RunOK2"),
     ("C03_steps_stable2", "steps_stable2", "no mo edge is lost along an execution, under RunOK2"),
     ("C03_CoRR_CoWR_steps2", "CoRR_CoWR_steps2", "CoRR / CoWR over executions, under RunOK2"),
+ ]), ("LV.AtomicFacts LV.AtomicCoherence LV.AtomicCoRR LV.AtomicClosure LV.AtomicBridge LV.NotifyFacts LV.ClockFacts LV.SyncMono LV.ExecFacts LV.AtomicRun LV.AtomicRun2 LV.AtomicRun3", "THE REPLAY HYPOTHESIS (AtomicRun3.v). The clause says: the index a replayed Load entry answers is in the candidate list the access computes (for the non-empty list that access itself hands to choose_store -- an earlier formulation quantified over every list and was unsatisfiable, which made the run-level theorems vacuous; found while trying to discharge it, corrected in AtomicRun/AtomicRun2). Discharged outright for the first iteration of every program and for everything after the stored prefix of any iteration; for replayed entries reduced to `the recorded entry equals this access's candidate list` (RecordedOK), which a Coq function checks over a whole exploration (sound: explore_rec_sound) -- the general proof needs prefix determinism of iterations (a two-run simulation), which is not done", [
+    ("C03_steps_traversed", "steps_traversed", "once the stored prefix is consumed it stays consumed along the steps"),
+    ("C03_fresh_load_is_candidate", "fresh_load_is_candidate", "a freshly pushed Load entry answers a candidate, records exactly the candidate list, position 0"),
+    ("C03_first_iteration_goodAt", "first_iteration_goodAt", "THE FIRST ITERATION OF EVERY PROGRAM: the invariant of every declared atomic holds in every reachable state, with the ring hypothesis only (and max_threads <= MAX_THREADS)"),
+    ("C03_first_iteration_coherence", "first_iteration_coherence", "hence CoRR / CoWR / RMW coherence over the first iteration of every program"),
+    ("C03_after_prefix_ReplayAt", "after_prefix_ReplayAt", "in any iteration every access after the stored prefix satisfies the clause"),
+    ("C03_steps_load_entry_fixed", "steps_load_entry_fixed", "a Load entry of the stack is never modified during an iteration"),
+    ("C03_step_load_entry", "step_load_entry", "Path::step keeps the values of every Load entry it keeps and advances the last one inside its list"),
+    ("C03_recorded_ReplayAt", "recorded_ReplayAt", "if the entry under the cursor records this access's candidate list, the replayed answer is a candidate"),
+    ("C03_recorded_run_goodAt", "recorded_run_goodAt", "the run-level theorem under RecordedOK and the ring hypothesis"),
+    ("C03_explore_rec_sound", "explore_rec_sound", "the checker is sound: if explore_rec answers (_, _, true, true), RecordedOK holds for every path of the exploration"),
+    ("C03_check_records_Explored", "check_records_Explored", "the begin path of every record of Builder::check is such a path"),
+    ("C03_explored_run_goodAt", "explored_run_goodAt", "for a program whose exploration passes the checker: the invariant in every reachable state of every iteration"),
+    ("C03_p_sl_checked", "p_sl_checked", "computed: store/load race, 25 iterations, 28 replayed loads, all recorded entries agree"),
+    ("C03_p_mp_checked", "p_mp_checked", "computed: message passing with release store, RMW and relaxed loads, 72 iterations, 181 replayed loads"),
  ])],
  "C02": [("LV.AtomicFacts LV.AtomicCoherence", "Nothing allowed is pruned without a reason: the candidate set is never empty and contains every mo-maximal store (AtomicCoherence.v)", [
     ("C02_mo_maximal_is_candidate", "mo_maximal_is_candidate", "a live store with no mo-later live store is always a candidate"),
